@@ -596,3 +596,52 @@ def base_pel_specs():
     everything = [secs[k] for k in ('PSc', 'EH', 'MT', 'LP', 'UDj', 'UDh', 'ED', 'SS', 'UDt', 'ZZ')]
     out.append({'eid': 0x500001FF, 'plid': 0x500001FF, 'sections': everything})
     return copy.deepcopy(out)
+
+
+# ---------------------------------------------------------------- generic entry check
+
+def check_raw(s, doc, creator, env):
+    """A section without a decoder: standard fields + payload recoverable from the 'Data' hex dump."""
+    from mc.ref import hexdump as rhex
+    m = Mismatch()
+    if not isinstance(doc, dict):
+        m.append('entry is not an object: %r' % (doc,))
+        return m
+    t = s.get('t')
+    std3(m, s, doc, s.get('creator', creator) if t == 'ED' else creator, env,
+         default_style=(t not in ('UD', 'ED') or 'id' in s))
+    payload = payload_of(s)
+    data = doc.get('Data')
+    if payload:
+        try:
+            got = rhex.read_default(data)
+        except Exception as e:
+            got = None
+        if got != payload:
+            m.append('Data: hex dump does not give back the %d payload bytes (got %r)' % (len(payload),
+                     got.hex() if got is not None else data if not isinstance(data, list) else data[:2]))
+    return m
+
+
+def is_builtin(s, creator):
+    from pel.peltool.pel_values import creatorIDs
+    c = s.get('creator', 'B') if s.get('t') == 'ED' and 'id' not in s else creator
+    return s.get('t') in ('UD', 'ED') and 'id' not in s and creatorIDs.get(c) == 'BMC' and s.get('comp', 0x1000) == 0x2000
+
+
+def check_entry(s, doc, creator, env):
+    t = s.get('t')
+    if 'id' not in s:
+        if t in ('PS', 'SS'):
+            return check_src(s, doc, creator, env)
+        if t == 'EH':
+            return check_eh(s, doc, creator, env)
+        if t == 'MT':
+            return check_mt(s, doc, creator, env)
+        if t == 'LP':
+            return check_lp(s, doc, creator, env)
+        if t in ('UD', 'ED') and (is_builtin(s, creator) or s.get('decoded')):
+            m = Mismatch()
+            std3(m, s, doc, s.get('creator', creator) if t == 'ED' else creator, env)
+            return m
+    return check_raw(s, doc, creator, env)
